@@ -460,19 +460,26 @@ pub fn build(spec: &ArchSpec, sc: &Scratch) -> Built {
                 end += 4;
             }
         } else if blk.flags & F_COMPRESS != 0 {
+            // published layout: n+1 sector offsets (n+2 with sector checksums), the data sectors and,
+            // with checksums, one more sector holding n ADLER32 values (stored raw by the builder);
+            // the stored size covers all of it
             let n = fsize.div_ceil(SECTOR);
+            let crc = blk.flags & F_CRC != 0;
+            let entries = n + 1 + crc as usize;
             let mut o = pos;
-            local.push(mk(format!("sector_offset_table[{st}]"), o, o + 4 * (n + 1), false));
-            o += 4 * (n + 1);
-            let mut crcb = 0;
-            if blk.flags & F_CRC != 0 {
-                local.push(mk(format!("sector_crc_table[{st}]"), o, o + 4 * n, false));
-                o += 4 * n;
-                crcb = 4 * n;
+            local.push(mk(format!("sector_offset_table[{st}]"), o, o + 4 * entries, false));
+            o += 4 * entries;
+            end = pos + csize;
+            let first = u32le(&bytes, pos) as usize;
+            if blk.flags & F_ENCRYPTED == 0 {
+                assert_eq!(first, 4 * entries, "first sector offset of {name} in {} (sector table entries)", spec.id);
             }
-            // the builder's compressed size counts the offset table and the sector data only
-            end = pos + csize + crcb;
-            local.push(mk(format!("file_data[{st}]"), o, end, true));
+            if crc {
+                local.push(mk(format!("file_data[{st}]"), o, end - 4 * n, true));
+                local.push(mk(format!("sector_crc_table[{st}]"), end - 4 * n, end, false));
+            } else {
+                local.push(mk(format!("file_data[{st}]"), o, end, true));
+            }
         } else {
             // flat storage (only the signature file and empty files are stored like this here)
             local.push(mk(format!("file_data[flat,{st}]"), pos, pos + csize, true));
